@@ -63,35 +63,36 @@ def kindOf : Op String String → Option AccKind
   | _ => none
 
 /-- "the trace is an execution of the program the table was extracted from" — the assumption that ties the static
-    table to dynamic traces (soundness of the extractor and of its lock analysis; fork/join shape of the executor) -/
+    table to dynamic traces (soundness of the extractor and of its lock analysis; fork/join shape of the executor):
+    every access is either *serial* (made by the main goroutine while every other thread is already joined or not yet
+    forked: everything `NextEpoch` does before the `go` statements and after `wg.Wait()`), or an instance of a table
+    row — the table covers the goroutine bodies AND the part of the forking function that runs concurrently with
+    them (the `for … { go … }` loop up to `wg.Wait()`) — holding every mutex the row claims -/
 structure Conforms (rows : List Access) (tr : Trace String String) : Prop where
-  /-- every access of a worker goroutine is an instance of a table row and holds every mutex the row claims -/
-  worker : ∀ (k : Nat) (e : Event String String) (l : String), tr[k]? = some e → e.tid ≠ mainTid → e.op.loc? = some l →
+  access : ∀ (k : Nat) (e : Event String String) (l : String), tr[k]? = some e → e.op.loc? = some l →
+      Serial tr k e ∨
       ∃ r ∈ rows, r.loc = l ∧ kindOf e.op = some r.kind ∧ ∀ m, r.holds m = true → Holds tr k e.tid m
-  /-- the main goroutine touches shared state only before the fork / after the join -/
-  main : ∀ (k : Nat) (e : Event String String) (l : String), tr[k]? = some e → e.tid = mainTid → e.op.loc? = some l →
-      Serial tr k e
 
 /-- the static discipline of the table implies the dynamic discipline of every conforming trace -/
 theorem table_discipline_sound (classOf : String → SharedClass) (rows : List Access) (tr : Trace String String)
     (hs : sharedDiscipline classOf rows = true) (hc : Conforms rows tr) :
     Disciplined (fun l => toLocClass (classOf l)) tr := by
   intro k e he
-  have hrow : ∀ l, e.op.loc? = some l → e.tid ≠ mainTid →
+  have hrow : ∀ l, e.op.loc? = some l → Serial tr k e ∨
       ∃ r ∈ rows, r.loc = l ∧ kindOf e.op = some r.kind ∧ (∀ m, r.holds m = true → Holds tr k e.tid m) ∧
         rowOk (classOf l) r = true := by
-    intro l hl hne
-    obtain ⟨r, hr, hloc, hk, hh⟩ := hc.worker k e l he hne hl
-    refine ⟨r, hr, hloc, hk, hh, ?_⟩
-    have := List.all_eq_true.mp hs r hr
-    simpa [hloc] using this
+    intro l hl
+    rcases hc.access k e l he hl with hser | ⟨r, hr, hloc, hk, hh⟩
+    · exact Or.inl hser
+    · refine Or.inr ⟨r, hr, hloc, hk, hh, ?_⟩
+      have := List.all_eq_true.mp hs r hr
+      simpa [hloc] using this
   unfold AccessOk
   cases hop : e.op with
   | rd l =>
-    by_cases hm : e.tid = mainTid
-    · exact Or.inl (hc.main k e l he hm (by simp [hop, Op.loc?]))
-    · obtain ⟨r, _, _, hk, hh, hok⟩ := hrow l (by simp [hop, Op.loc?]) hm
-      right
+    rcases hrow l (by simp [hop, Op.loc?]) with hser | ⟨r, _, _, hk, hh, hok⟩
+    · exact Or.inl hser
+    · right
       cases hc' : classOf l with
       | guarded m =>
         simp only [hc', rowOk, Bool.and_eq_true] at hok
@@ -101,10 +102,9 @@ theorem table_discipline_sound (classOf : String → SharedClass) (rows : List A
         simp only [hc', rowOk, Bool.and_eq_true, beq_iff_eq] at hok
         simp [hop, kindOf, hok.1] at hk
   | wr l =>
-    by_cases hm : e.tid = mainTid
-    · exact Or.inl (hc.main k e l he hm (by simp [hop, Op.loc?]))
-    · obtain ⟨r, _, _, hk, hh, hok⟩ := hrow l (by simp [hop, Op.loc?]) hm
-      right
+    rcases hrow l (by simp [hop, Op.loc?]) with hser | ⟨r, _, _, hk, hh, hok⟩
+    · exact Or.inl hser
+    · right
       cases hc' : classOf l with
       | guarded m =>
         simp only [hc', rowOk, Bool.and_eq_true] at hok
@@ -116,10 +116,9 @@ theorem table_discipline_sound (classOf : String → SharedClass) (rows : List A
         simp only [hc', rowOk, Bool.and_eq_true, beq_iff_eq] at hok
         simp [hop, kindOf, hok.1] at hk
   | atomic l =>
-    by_cases hm : e.tid = mainTid
-    · exact Or.inl (hc.main k e l he hm (by simp [hop, Op.loc?]))
-    · obtain ⟨r, _, _, hk, hh, hok⟩ := hrow l (by simp [hop, Op.loc?]) hm
-      right
+    rcases hrow l (by simp [hop, Op.loc?]) with hser | ⟨r, _, _, hk, hh, hok⟩
+    · exact Or.inl hser
+    · right
       cases hc' : classOf l with
       | guarded m =>
         simp only [hc', rowOk, Bool.and_eq_true] at hok
